@@ -154,6 +154,7 @@ class ScriptedBroker(AsyncBroker):
         self.kick_exc = "RuntimeError"
         self.pos = 0
         self.fault_at: Any = None
+        self.cancel_cleanup: Any = None
 
     async def kick(self, message: Any) -> None:
         k = self.kicks
@@ -171,7 +172,11 @@ class ScriptedBroker(AsyncBroker):
             at, data, ackkind = self.script[i]
             d = at - loop.time()
             if d > 0:
-                await asyncio.sleep(d)
+                try:
+                    await asyncio.sleep(d)
+                except asyncio.CancelledError:
+                    await self._unsubscribe()
+                    raise
             if self.fault_at is not None and (i == self.fault_at or (isinstance(self.fault_at, list) and i in self.fault_at)):
                 # at the instant message i would have been handed over the subscription breaks instead; listen() fails
                 if isinstance(self.fault_at, list):
@@ -232,7 +237,23 @@ class ScriptedBroker(AsyncBroker):
             self.tr.add("take", i)
             yield item
         if not self.ends:
-            await asyncio.Event().wait()
+            try:
+                await asyncio.Event().wait()
+            except asyncio.CancelledError:
+                await self._unsubscribe()
+                raise
+
+    async def _unsubscribe(self) -> None:
+        """what the broker's listen() does when its pending fetch is cancelled (the worker stops prefetching): release the consumer -
+        at once, after a round trip, or failing because the connection is gone.  Nobody has to wait for it."""
+        how = self.cancel_cleanup
+        if not how:
+            return
+        self.tr.add("unsubscribe_start")
+        if how == "raise":
+            raise ConnectionError("connection lost while unsubscribing")
+        await asyncio.sleep(float(how))
+        self.tr.add("unsubscribe_done")
 
 
 # what a result backend may raise: anything, including the connection / timeout errors of a network client
@@ -614,6 +635,7 @@ def run_worker(sc: Dict[str, Any], register: Optional[Callable[..., None]] = Non
     b.is_worker_process = True   # what `taskiq worker` sets before it starts the receiver
     b.kick_fail = set(sc.get("fail_kicks", ()))
     b.fault_at = list(sc["stream_fault"]) if isinstance(sc.get("stream_fault"), list) else sc.get("stream_fault")
+    b.cancel_cleanup = sc.get("cancel_cleanup")
     rb = RecordingBackend(tr, sc.get("fail_saves", ()), sc.get("save_latency", 0.0))
     rb.fail_ids = set(sc.get("fail_save_ids", ()))
     rb.fail_exc = sc.get("save_exc", "RuntimeError")
